@@ -2,9 +2,9 @@
 """usage: tools/mkbuildmsg.py Cxx [wt] — print the round-4 builder prompt for a property from seeded/Cxx-r3s*/meta.json"""
 import json, glob, os, sys
 ROOT = os.path.dirname(os.path.dirname(os.path.abspath(__file__)))
-pid = sys.argv[1]; wt = sys.argv[2] if len(sys.argv) > 2 else pid
+pid = sys.argv[1]; wt = sys.argv[2] if len(sys.argv) > 2 else pid; tag = sys.argv[3] if len(sys.argv) > 3 else "r3s"
 lines = []
-for d in sorted(glob.glob(os.path.join(ROOT, "seeded", pid + "-r3s*"))):
+for d in sorted(glob.glob(os.path.join(ROOT, "seeded", pid + "-" + tag + "*"))):
     j = json.load(open(os.path.join(d, "meta.json")))
     vs = [c["verdict"] for c in j.get("check_result_at_keep_time", []) if not c["verdict"].startswith("KNOWN")]
     v = "; ".join(x[:120] for x in vs)
@@ -12,9 +12,9 @@ for d in sorted(glob.glob(os.path.join(ROOT, "seeded", pid + "-r3s*"))):
     elif all("no-failing-input-found" in x or "OK " in x for x in vs if "VIOLATION" in x): st = "only corr/proof (no-failing-input-found)"
     else: st = "caught by a monitor"
     lines.append(f"- {os.path.basename(d)}: {st} — {j.get('summary','')[:300]}")
-print(f"""You are the round-4 builder for property {pid} of the uQUIC verification framework in /verif (Lean 4 proofs + correspondence harness against the Go repository /repo). Work ONLY in the git worktree /verif/.work/wt/{wt} (branch wt-{wt}); start with `cd /verif/.work/wt/{wt} && git merge --no-edit main` and copy the build caches (`cp -a /verif/lean/.lake lean/ 2>/dev/null; cp -a /verif/lean/Uquic/Generated lean/Uquic/ 2>/dev/null`). Then read /verif/.work/wt/{wt}/ROUND4.md and follow it exactly (it points to HOWTO.md, ROUND3.md, DESIGN.md). Never edit /repo; never work in /verif itself (only your worktree); commit on your branch when done.
+print(f"""You are the builder (round after seeding round {tag[1]}) for property {pid} of the uQUIC verification framework in /verif (Lean 4 proofs + correspondence harness against the Go repository /repo). Work ONLY in the git worktree /verif/.work/wt/{wt} (branch wt-{wt}); start with `cd /verif/.work/wt/{wt} && git merge --no-edit main` (main moved a lot: every property got new drivers/modules, a Go-to-Lean translator gofacts/trans.go with tie theorems Uquic.Props.Trans* was added, checks/_extra/*.json overlays extend props_modules — read HOWTO.md again; /repo HEAD has new fix commits) and copy the build caches (`cp -a /verif/lean/.lake lean/ 2>/dev/null; cp -a /verif/lean/Uquic/Generated lean/Uquic/ 2>/dev/null`). Then read /verif/.work/wt/{wt}/ROUND4.md and follow it exactly (it points to HOWTO.md, ROUND3.md, DESIGN.md). Never edit /repo; never work in /verif itself (only your worktree); commit on your branch when done.
 
-Round-3 seeds of {pid} and what `./check {pid}` said when they were kept:
+Seeds {tag}* of {pid} and what `./check {pid}` said when they were kept:
 {chr(10).join(lines)}
 
 Work on every seed that is MISSED or only corr/proof. Report in ≤ 12 lines.""")
